@@ -17,3 +17,9 @@ HARNESSES = [it("safety", len0=l, ret=r, timeout=120) for l, r in [(0, 24), (12,
 import C18 as _C18
 HARNESSES += [dict(h, name=h["name"] + ".safe", mode="safety", timeout=600, mem_gb=6, optional_witnesses=True)
               for h in _C18.HARNESSES if h["name"] in ("list.l", "list.vv", "list.name", "ext.msg", "ext.dryrun", "ext.extract", "safe.output")]
+# make_parent_directories on EVERY short path, including the empty and the all-'/' ones (seeded changes C08b3, C08a5: path[len-1] with len == 0)
+HARNESSES += [dict(h, name="ext.parents.all.safe", defines=h["defines"] + ["ALLOW_EMPTY_PATH"], mode="safety", timeout=600, mem_gb=6, optional_witnesses=True,
+                   text_rewrites={"src/extract.c": [["while (p >= path && *p == '/')", "while (VERIF_PTR_GE(p, path) && *p == '/')"]]},
+                   stubs=h.get("stubs", []) + ["pointer order `p >= path` in make_parent_directories evaluated on a flat address space (signed offset; harness/common/verif_ptr.h)"],
+                   bounds="make_parent_directories on ANY path string of <= 5 bytes over 0x00..0xFF, the empty and all-'/' paths included")
+              for h in _C18.HARNESSES if h["name"] == "ext.parents"]
